@@ -168,6 +168,10 @@ func c19R2(c *Ctx) {
 				}
 				n++
 				ob := c.Ob("C19.R2", "ptr-store/"+a.FuncName(fn), e.Pos)
+				if al := selfRegistered(st, fa); al != nil {
+					ob.Ok("a container allocated in this function is registered with itself (self.ptr = self), what Init(self) does")
+					continue
+				}
 				par, isParam := st.Val.(*ssa.Parameter)
 				if isParam && len(fn.Params) == 2 && par == fn.Params[1] && fa.X == fn.Params[0] && len(a.eff[fn]) == 1 && len(fn.Blocks) == 1 {
 					ob.Ok("unconditionally (single basic block) stores its only argument into the receiver's ptr and has no other effect")
@@ -238,6 +242,27 @@ func isNamed(t types.Type, n *types.Named) bool {
 }
 
 // registeredWithInit: in root (incl. closures) there is a call X.Init(Y) where X and Y both derive from alloc.
+// selfRegistered: the store writes the very container allocated in this function into its own ptr field; returns that allocation.
+func selfRegistered(st *ssa.Store, fa *ssa.FieldAddr) *ssa.Alloc {
+	strip := func(v ssa.Value) ssa.Value {
+		for {
+			switch x := v.(type) {
+			case *ssa.MakeInterface:
+				v = x.X
+			case *ssa.ChangeInterface:
+				v = x.X
+			default:
+				return v
+			}
+		}
+	}
+	al, ok := fa.X.(*ssa.Alloc)
+	if !ok || !al.Heap || strip(st.Val) != ssa.Value(al) {
+		return nil
+	}
+	return al
+}
+
 func registeredWithInit(a *E3, root *ssa.Function, al *ssa.Alloc) bool {
 	derives := func(v ssa.Value) bool {
 		seen := map[ssa.Value]bool{}
@@ -298,6 +323,13 @@ func registeredWithInit(a *E3, root *ssa.Function, al *ssa.Alloc) bool {
 	scan = func(f *ssa.Function) {
 		for _, b := range f.Blocks {
 			for _, in := range b.Instrs {
+				if st, isSt := in.(*ssa.Store); isSt {
+					// the registration written out in the function that allocates: self.ptr = self
+					if fa, ok := st.Addr.(*ssa.FieldAddr); ok && a.isPtrField(fa) && derives(fa.X) && derives(st.Val) && initOnEveryExit(al, st) {
+						found = true
+					}
+					continue
+				}
 				call, ok := in.(*ssa.Call)
 				if !ok {
 					continue
@@ -655,7 +687,7 @@ func indexOfInstr(f *ssa.Function, target ssa.Instruction) int {
 
 // initOnEveryExit: the registration call lies in the function that allocates the container and its block dominates every returning
 // block reachable from the allocation — no path hands the container out unregistered (Ego() == nil).
-func initOnEveryExit(al *ssa.Alloc, call *ssa.Call) bool {
+func initOnEveryExit(al *ssa.Alloc, call ssa.Instruction) bool {
 	f := al.Parent()
 	if call.Parent() != f {
 		return false
